@@ -99,10 +99,13 @@ class Ledger(Base):
         self.submits: Dict[str, List[str]] = defaultdict(list)  # id -> [NN]
         self.late_polled: List[list] = []
         self.late_msgs: List[list] = []
+        self.respawn_refused: List[str] = []
 
     def on_event(self, ev):
         k = ev['k']
-        if k == 'CMD':
+        if k == 'RESPAWN_REFUSED':
+            self.respawn_refused.append(ev['id'])
+        elif k == 'CMD':
             self.commands += 1
             if ev['cmd'] in ('force_trigger_tasks', 'set', 'remove_tasks',
                              'kill_tasks'):
@@ -140,6 +143,7 @@ class Ledger(Base):
                 'n_late_polled': len(self.late_polled),
                 'messages_after_task_left_pool': self.late_msgs,
                 'n_late_msgs': len(self.late_msgs),
+                'respawn_refused': self.respawn_refused,
                 '_state': {'manual': sorted(self.manual)}}
 
     def actual_facts(self) -> Set[Tuple[str, int, str]]:
@@ -557,16 +561,21 @@ class EndState(Base):
     def __init__(self, case, phase):
         super().__init__(case, phase)
         self.submit_iters = []
+        self.succeeded_iters = []
 
     def on_event(self, ev):
         if ev['k'] == 'SUBMIT_CMD':
             for j in ev['jobs']:
                 self.submit_iters.append([j.rsplit('/', 1)[0], ev['it']])
+        elif ev['k'] == 'STATE' and ev['after'][0] == 'succeeded' \
+                and ev['before'][0] != 'succeeded':
+            self.succeeded_iters.append([ev['id'], ev['it']])
 
     def summary(self, drv):
         led = drv.ledger
         return {
             'submit_iters': self.submit_iters,
+            'succeeded_iters': self.succeeded_iters,
             'submitted': sorted(f'{t}' for t in led.submits),
             'submits': {k: v for k, v in led.submits.items()},
             'manual': sorted(led.manual),
